@@ -57,7 +57,7 @@ func InvWorker(w markettypes.Worker) bool {
 }
 
 func InvMetadata(m modeltypes.Metadata) bool {
-	return sym.And(len(m.DataId) == 36, m.Duration < 1<<40, m.CreatedAt < 1<<40, m.Status >= 0, m.Status <= 3,
+	return sym.And(len(m.DataId) == 36, m.Duration < 1<<40, m.CreatedAt < 1<<40, m.Status >= 0, m.Status <= 4,
 		len(m.Commits) <= len(m.Orders))
 }
 
